@@ -179,7 +179,8 @@ pub fn run(ctx: &Ctx) -> i32 {
         if !*extra {
             if let Some(f) = corpus::ctehexml_path(dir) {
                 let outp = format!("{}/.cache/c01-thor-{}.json", verif_dir(), i);
-                let _ = std::fs::remove_file(&outp);
+                // the output path already exists and holds more bytes than any model (an earlier, larger export)
+                let _ = std::fs::write(&outp, format!("{{\"earlier\": \"{}\"}}", "x".repeat(3_000_000)));
                 let p = run_proc(&bin("thor"), &[f.as_str(), "-o", outp.as_str()], 120);
                 let case = || json!({"tool": "thor", "file": f, "cmd": format!("thor {} -o OUT", f)});
                 ctx.eval(1);
@@ -248,7 +249,7 @@ pub fn run(ctx: &Ctx) -> i32 {
     }
     ctx.finish(
         "exploration",
-        "every project directory (12 shipped incl. VyP and GT system sections + synthetic directories written by the generator, with and without KyG/tbl files) x {default, --use-extra}: hulc2model is run as a process (stdout captured, exit status) and compared with hulc2model::collect_hulc_data computed in a monitored worker process (any byte on fd 1 during the library call is a violation); stdout must parse as a whole as one JSON document and load as a model whose re-serialisation is byte-identical to the library's; thor FILE -o OUT must write exactly the library model JSON and nothing on stdout; 5 kinds of non-project directory x 2 flag sets must give a non-zero exit status and no JSON; the stdout monitor also runs over grey-box value substitutions (XML values replaced by the string literals the parser source branches on; 2 projects quick / all thorough) and, in thorough, over every 'remove one block' mutant of every shipped .ctehexml; non-trivial = convertible project run or non-project run",
+        "every project directory (12 shipped incl. VyP and GT system sections + synthetic directories written by the generator, with and without KyG/tbl files) x {default, --use-extra}: hulc2model is run as a process (stdout captured, exit status) and compared with hulc2model::collect_hulc_data computed in a monitored worker process (any byte on fd 1 during the library call is a violation); stdout must parse as a whole as one JSON document and load as a model whose re-serialisation is byte-identical to the library's; thor FILE -o OUT (OUT pre-existing and longer than any model) must leave exactly the library model JSON in the file and nothing on stdout; 5 kinds of non-project directory x 2 flag sets must give a non-zero exit status and no JSON; the stdout monitor also runs over grey-box value substitutions (XML values replaced by the string literals the parser source branches on; 2 projects quick / all thorough) and, in thorough, over every 'remove one block' mutant of every shipped .ctehexml; non-trivial = convertible project run or non-project run",
         true,
         json!({}),
     )
